@@ -7,37 +7,37 @@ import monitors as M
 P = V.proj_fields
 
 # slices: (profile, kind, programs_quick, programs_thorough, length_quick, length_thorough)
-KV = ("kv", "mem", 100, 400, 30, 60)
-KVD = ("kv", "disk", 30, 120, 30, 60)
-FEEDS = ("feeds", "mem", 60, 250, 25, 50)
-FEEDSD = ("feeds", "disk", 20, 80, 25, 50)
-MULTI = ("multi", "mem", 40, 150, 25, 50)
-MULTID = ("multi", "disk", 12, 50, 25, 50)
+KV = ("kv", "mem", 100, 1200, 30, 60)
+KVD = ("kv", "disk", 30, 300, 30, 60)
+FEEDS = ("feeds", "mem", 60, 600, 25, 50)
+FEEDSD = ("feeds", "disk", 20, 200, 25, 50)
+MULTI = ("multi", "mem", 40, 400, 25, 50)
+MULTID = ("multi", "disk", 12, 120, 25, 50)
 
-CLOCK = ("clock", "mem", 60, 300, 40, 80)
-CLOCKD = ("clock", "disk", 30, 150, 40, 80)
+CLOCK = ("clock", "mem", 60, 600, 40, 80)
+CLOCKD = ("clock", "disk", 30, 300, 40, 80)
 
-EXPIRY = ("expiry", "mem", 50, 250, 25, 50)
-EXPIRYD = ("expiry", "disk", 20, 100, 25, 50)
+EXPIRY = ("expiry", "mem", 50, 600, 25, 50)
+EXPIRYD = ("expiry", "disk", 20, 250, 25, 50)
 
-SUBDOC = ("subdoc", "mem", 100, 400, 40, 80)
-SUBDOCD = ("subdoc", "disk", 30, 120, 40, 80)
+SUBDOC = ("subdoc", "mem", 100, 1000, 40, 80)
+SUBDOCD = ("subdoc", "disk", 30, 300, 40, 80)
 
-REG = ("reg", "mem", 150, 600, 30, 60)
+REG = ("reg", "mem", 150, 2000, 30, 60)
 
-QUERY = ("query", "mem", 60, 250, 30, 60)
-QUERYD = ("query", "disk", 25, 100, 30, 60)
+QUERY = ("query", "mem", 60, 600, 30, 60)
+QUERYD = ("query", "disk", 25, 250, 30, 60)
 
-RESUME = ("resume", "mem", 60, 250, 40, 80)
-RESUMED = ("resume", "disk", 20, 80, 40, 80)
+RESUME = ("resume", "mem", 60, 600, 40, 80)
+RESUMED = ("resume", "disk", 20, 200, 40, 80)
 
-COLLS = ("colls", "mem", 30, 300, 40, 80)
-COLLSD = ("colls", "disk", 20, 200, 40, 80)
+COLLS = ("colls", "mem", 30, 600, 40, 80)
+COLLSD = ("colls", "disk", 20, 400, 40, 80)
 
-VIEW = ("view", "mem", 50, 300, 60, 120)
-VIEWD = ("view", "disk", 20, 120, 60, 120)
-VIEWM = ("viewmeta", "mem", 30, 200, 60, 120)
-VIEWMD = ("viewmeta", "disk", 12, 80, 60, 120)
+VIEW = ("view", "mem", 50, 600, 60, 120)
+VIEWD = ("view", "disk", 20, 250, 60, 120)
+VIEWM = ("viewmeta", "mem", 30, 400, 60, 120)
+VIEWMD = ("viewmeta", "disk", 12, 160, 60, 120)
 
 LIFE = ("life", "mem", 120, 600, 14, 18)
 LIFE_S = ("life", "mem", 40, 300, 10, 14)     # C20 uses the lifecycle histories only as a sequential background
